@@ -25,6 +25,7 @@ import (
 
 	"verif/internal/ev"
 	"verif/internal/gen"
+	"verif/internal/jsgen"
 )
 
 func TestMain(m *testing.M) { ev.Main(m, "C01") }
@@ -274,9 +275,23 @@ func useTree(t fataler, src []byte, o js.Options, ast *js.AST) {
 }
 
 func TestProp_JSParse(t *testing.T) {
-	ev.Describe("js.Parse", "hostile JS fragment strings, mutated literals of the repository's js tests and truncations, x Options{WhileToFor,Inline} in {0,1}^2; oracle: Parse returns normally, exactly one of (tree, error) is nil, a returned tree survives String(), JS(), JSString(), Walk (balanced Enter/Exit) and JSON()/JSONString() without panic; non-trivial = input of >= 8 bytes; classes accepted/rejected")
+	ev.Describe("js.Parse", "hostile JS fragment strings, mutated literals of the repository's js tests and truncations, (one third) programs of the ECMAScript grammar generator with 1-3 token-level slips (delete, duplicate, swap, replace, insert, splice) and (one sixth) cover-grammar sources (literal-like expressions with spreads, initialisers, methods and nested literals as arrow heads, assignment targets and for-in/of heads), x Options{WhileToFor,Inline} in {0,1}^2; oracle: Parse returns normally, exactly one of (tree, error) is nil, a returned tree survives String(), JS(), JSString(), Walk (balanced Enter/Exit) and JSON()/JSONString() without panic; non-trivial = input of >= 8 bytes; classes accepted/rejected")
 	ev.Check(t, 20000, func(t *rapid.T) {
-		src := genInput(t, "js")
+		var src []byte
+		source := "fragments/literals"
+		if k := rapid.IntRange(0, 5).Draw(t, "nearvalid"); k == 0 {
+			src = []byte(coverSource(t))
+			source = "cover-grammar"
+		} else if k <= 2 {
+			// a grammar-generated program with 1-3 token-level slips
+			g := jsgen.New(t)
+			g.Module = rapid.Bool().Draw(t, "module")
+			g.MaxDepth = rapid.IntRange(2, 4).Draw(t, "maxDepth")
+			src = []byte(jsgen.NearValid(t, g.Program().Toks))
+			source = "near-valid"
+		} else {
+			src = genInput(t, "js")
+		}
 		o := js.Options{WhileToFor: rapid.Bool().Draw(t, "w2f"), Inline: rapid.Bool().Draw(t, "inline")}
 		var ast *js.AST
 		var err error
@@ -296,7 +311,7 @@ func TestProp_JSParse(t *testing.T) {
 			cls = "accepted"
 			useTree(t, src, o, ast)
 		}
-		ev.Case("js.Parse", fmt.Sprintf("%+v|%s", o, src), len(src) >= 8, cls)
+		ev.Case("js.Parse", fmt.Sprintf("%+v|%s", o, src), len(src) >= 8, cls, source)
 	})
 }
 
@@ -420,6 +435,8 @@ type deepCase struct {
 	closed     bool
 	inner      *deepRow // row nested inside (pairwise mixing)
 	innerDepth int
+	flat       string // a flat prefix: this text repeated flatN times in front of the nested construct
+	flatN      int
 }
 
 func (c deepCase) spec() []byte {
@@ -427,6 +444,9 @@ func (c deepCase) spec() []byte {
 	m := map[string]any{"Entry": r.entry, "Head": r.head, "Prefix": r.prefix, "Mid": r.mid, "Suffix": r.suffix, "Tail": r.tail, "Opts": r.opts, "Depth": c.depth}
 	if !c.closed {
 		m["Suffix"], m["Tail"] = "", ""
+	}
+	if c.flatN > 0 {
+		m["Flat"], m["FlatN"] = c.flat, c.flatN
 	}
 	if c.inner != nil {
 		m["HasInner"], m["InnerPrefix"], m["InnerMid"], m["InnerSuffix"], m["InnerDepth"] = true, c.inner.prefix, c.inner.mid, c.inner.suffix, c.innerDepth
@@ -437,14 +457,20 @@ func (c deepCase) spec() []byte {
 
 func (c deepCase) String() string {
 	s := fmt.Sprintf("%s %q + %q*%d + %q + %q*%d + %q closed=%v opts=%q", c.row.entry, c.row.head, c.row.prefix, c.depth, c.row.mid, c.row.suffix, c.depth, c.row.tail, c.closed, c.row.opts)
+	if c.flatN > 0 {
+		s += fmt.Sprintf(" behind %q*%d", c.flat, c.flatN)
+	}
 	if c.inner != nil {
 		s += fmt.Sprintf(" inner %q*%d %q %q*%d", c.inner.prefix, c.innerDepth, c.inner.mid, c.inner.suffix, c.innerDepth)
 	}
 	return s
 }
 
+// statement shapes for the flat prefixes (one per entry path of the statement and expression parsers)
+var flatStatements = []string{"0;", "a;", "(a);", "x=>x;", "(a,b)=>a;", "[a];", "({});", "!a;", "`t`;", "a?b:c;", "{}", "if(a);", "f(a);", "a=1;", "x=(a);", "var[b]=c;", "(class{});", "(function(){})();", "a.b;", "new a;", "l:b;", "for(;;)break;", "a`t`;", "a?.b;", "async()=>{};", "try{}catch{};", "switch(a){};", "1+2;", "a=[1,{b:2}];", "function f(){};"}
+
 func TestProp_Deep(t *testing.T) {
-	ev.Describe("deep", "every recursive construct of a table (54 JS rows: parentheses, array/object literals, blocks, unary/await/typeof chains, arrows, conditionals, calls, new, if/else, labels, functions, IIFEs, template substitutions, class heritage and bodies, binding patterns in let/parameters/catch/arrow heads/for-of, assignment, **, optional chains, left-deep binary chains, member/call/template suffix chains, spread, loops, with, switch, try, yield, return; 2 js lexer, 11 css, 3 json, 4 html, 3 xml rows) at depths {1,10,999,1000,1001,10^4,10^5} (10^6 in the thorough tier), closed or truncated, plus drawn pairs (one row nested in another); each case runs in a child process with a 16 MiB maximum stack; oracle: exit status 0 and a RESULT line (parse error or success incl. String/JS/Walk/JSON on the tree), never 'goroutine stack exceeds', 'fatal error', a panic or non-termination; non-trivial = depth >= 3")
+	ev.Describe("deep", "every recursive construct of a table (54 JS rows: parentheses, array/object literals, blocks, unary/await/typeof chains, arrows, conditionals, calls, new, if/else, labels, functions, IIFEs, template substitutions, class heritage and bodies, binding patterns in let/parameters/catch/arrow heads/for-of, assignment, **, optional chains, left-deep binary chains, member/call/template suffix chains, spread, loops, with, switch, try, yield, return; 2 js lexer, 11 css, 3 json, 4 html, 3 xml rows) at depths {1,10,999,1000,1001,10^4,10^5} (10^6 in the thorough tier), closed or truncated, plus drawn pairs (one row nested in another), plus 30 statement shapes repeated 10^5 times as a flat prefix in front of a construct nested 10^5 deep (a nesting counter that drifts per statement); each case runs in a child process with a 16 MiB maximum stack; oracle: exit status 0 and a RESULT line (parse error or success incl. String/JS/Walk/JSON on the tree), never 'goroutine stack exceeds', 'fatal error', a panic or non-termination; non-trivial = depth >= 3")
 	bin, err := child()
 	if err != nil {
 		t.Fatalf("VERIF-INFRA cannot build the child: %v", err)
@@ -469,6 +495,22 @@ func TestProp_Deep(t *testing.T) {
 				}
 				i++
 			}
+		}
+	}
+	// flat prefixes: a nesting counter that drifts by one per statement of some shape lets the nesting behind 10^5 such
+	// statements go 10^5 levels deeper than the limit
+	var jsRows []deepRow
+	for _, r := range deepRows {
+		if r.entry == "jsparse" && r.head == "" && r.opts == "" {
+			jsRows = append(jsRows, r)
+		}
+	}
+	for fi, flat := range flatStatements {
+		for k := 0; k < 2; k++ {
+			if i%nshards == shard {
+				cases = append(cases, deepCase{row: jsRows[(fi*7+k*13)%len(jsRows)], depth: 100000, closed: k == 0, flat: flat, flatN: 100000})
+			}
+			i++
 		}
 	}
 	// pairs: drawn with rapid so that they follow the seed
